@@ -603,6 +603,18 @@ class UrwidImageScreen(urwid.raw_display.Screen):
         """See the baseclass' method for the description."""
         return super().write(data)
 
+    def _last_row(self, row):
+        """See the description of the baseclass' method.
+
+        The baseclass slices the last row of the screen by columns (as computed by urwid)
+        but the content of image canvases isn't plain text (see
+        `UrwidImageCanvas.__init__()`); such rows are left as they are.
+        """
+        if any(b"\0\0" in text for _, _, text in row[-2:]):
+            return row, 0, (None, None, b"")
+
+        return super()._last_row(row)
+
     def _start(self, *args, **kwargs):
         ret = super()._start(*args, **kwargs)
         self.clear_images()
